@@ -348,14 +348,14 @@ prop('C16',
      claim='Narrow (Verus, unbounded over the frames delivered): the live loop of handlers::serve hands every frame whose topic ends in '
            '.register - and nothing else - to start_handler, once and in order, with the name = the topic without the suffix; '
            'start_handler spawns a valid registration exactly once and answers an invalid one with exactly one <name>.unregistered '
-           'frame in the registering context carrying the registering id and the error; the dispatch loop of Handler::serve stops at '
+           'frame in the registering context carrying the registering id and the error; Handler::spawn starts exactly one dispatch task, subscribed in the handler own context, BEFORE it appends exactly one <name>.registered frame carrying the handler id; the dispatch loop of Handler::serve stops at '
            'the first <name>.register / <name>.unregister newer than its own registration or at the first failed invocation, consumes '
            'nothing afterwards, and announces each such stop by exactly one <name>.unregistered frame in its own context carrying its '
            'handler id, the id of the stopping frame and (for a failure) the error - its last action; without a stop it announces nothing.',
      technique=TECH,
      units=['verus:handler_ops', 'verus:restart_ops'],
      obligations=['handler.serve.*', 'handler_ops.serve_loop.body', 'handlers.start.*', 'handler_ops.start_handler.body',
-                  'handlers.live.*', 'restart_ops.handlers_live_loop.body'],
+                  'handlers.live.*', 'restart_ops.handlers_live_loop.body', 'handler.spawn.*', 'handler_ops.spawn_whole.body'],
      trusted=['extraction', 'sequential', 'scru128'],
      extra_assumptions=['format!("{}<literal>", name) = name followed by the literal; serde_json::json!({..}) with a flat object = an object with '
                         'exactly those members (json_desugar); Handler::from_frame succeeds or fails as an oracle (nu engine)'],
